@@ -63,17 +63,25 @@ pub fn leave() {
 pub fn spawn_monitor(property: &'static str, limit: Duration) {
     std::thread::spawn(move || {
         let mut last: Vec<(u64, Instant)> = Vec::new();
+        // A stall must persist over this many of the monitor's own polls as
+        // well as over `limit` of wall time: a frozen VM or a starved machine
+        // stops the monitor together with the workers and must not count.
+        let need_polls = (limit.as_millis() / 200) as u32;
+        let mut polls: Vec<u32> = Vec::new();
         loop {
             std::thread::sleep(Duration::from_millis(200));
             let slots: Vec<Arc<Slot>> = registry().lock().unwrap().clone();
             last.resize(slots.len(), (u64::MAX, Instant::now()));
+            polls.resize(slots.len(), 0);
             for (i, s) in slots.iter().enumerate() {
                 let seq = s.seq.load(Ordering::Relaxed);
                 if !s.active.load(Ordering::Relaxed) || seq != last[i].0 {
                     last[i] = (seq, Instant::now());
+                    polls[i] = 0;
                     continue;
                 }
-                if last[i].1.elapsed() >= limit {
+                polls[i] += 1;
+                if last[i].1.elapsed() >= limit && polls[i] >= need_polls {
                     let g = s.buf.lock().unwrap();
                     let case = json!({"fam": g.0, "buf": hex(&g.1), "start": s.start.load(Ordering::Relaxed), "fn": "(a call did not return)", "expected": "terminates", "got": format!("no progress for {:.1}s", limit.as_secs_f64())});
                     report_and_exit(property, "nontermination", case);
